@@ -21,7 +21,8 @@ PROPERTY = "C11"
 LEVEL = "exploration"
 RULE = (
     "cases = compiled circuits of the bounded grammar with univariate exp-family inputs (categorical probs / logits / "
-    "log-softmax, binomial, Gaussian with/without log-partition, mixed) x (fold, optimize) x {sum-product, lse-sum} x "
+    "log-softmax, binomial, Gaussian with/without log-partition, mixed; categorical probabilities with exact zeros, with every "
+    "row of the domain used as placeholder) x (fold, optimize) x {sum-product, lse-sum} x "
     "batch sizes 1..3 (which include the fold counts that occur) x ALL mask matrices over the scope for B <= 3 (tensor format), "
     "all single scopes, all per-sample scope lists for B = 2; plus out-of-scope variables, wrong mask width, wrong dtype. "
     "Oracle: per sample brute-force sum / quadrature of the reference function over exactly the masked variables. "
@@ -61,6 +62,13 @@ def cases(tier, seed):
                                 else:
                                     circ["mixed"] = ["cat-logits", "gau-lp"]
                             yield {"circ": circ}
+    # exact-zero probabilities: the placeholder stored at a marginalised position may be a state of likelihood zero
+    # (log-space value -inf), which must not leak into the result; every window of 3 consecutive rows of the domain is used
+    for tree in [0, ("P", [0, 1]), ("P", [0, 1, 2])]:
+        for prod in (["had"] if isinstance(tree, int) else ["had", "kro"]):
+            circ = dict(tree=tree, prod=prod, style="cpt", nary="dense", kin=2, ksum=2, kout=1, inp="cat-probs", numbering="id", outputs="single")
+            for off in range(0, 27, 3):
+                yield {"circ": circ, "vk": "mzeros", "pick_offset": off}
 
 
 def masks_for(scope_vars, b):
@@ -75,7 +83,7 @@ def run_case(case):
     if spec is None:
         return {"status": "skip", "nontrivial": False}
     sc, roles = cdl.build_circuit(spec)
-    val = cdl.valuation(roles, "monotone", seed)
+    val = cdl.valuation(roles, case.get("vk", "monotone"), seed)
     cval = ref.with_cache(val)
     dom = ref.var_domains(sc)
     vs = sorted(sc.scope)
@@ -85,6 +93,10 @@ def run_case(case):
     all_rows = ref.assignments(dom, cont_grid=(-0.9, 0.3, 1.4))
     rng = np.random.default_rng([seed, 5])
     pick = [all_rows[i] for i in rng.permutation(len(all_rows))[:3]] if len(all_rows) >= 3 else (all_rows * 3)[:3]
+    if "pick_offset" in case:
+        if case["pick_offset"] >= len(all_rows):
+            return {"status": "skip", "nontrivial": False}
+        pick = (all_rows + all_rows)[case["pick_offset"]: case["pick_offset"] + 3]
     oracle_cache = {}
 
     def oracle(row, mask):
